@@ -42,6 +42,11 @@ CHECKS = {
    text="Engine B: every history to depth 6 (k=2 instances; thorough 8) / 5 (k=3; thorough 6) of heartbeat, report (global-allocate schema), acquire (global-count schema), silence, restart with a new identity and the two periodic cleanup passes (singly and together): after both passes nothing of a silent instance is on record (no condition, no counted in-flight, running total == sum == in-flight of live instances) and no pass changes what is recorded for an instance with a fresh heartbeat. Engine A: cleanupTimeoutClient and its goroutine racing a report/acquire of a live instance and a last request of the dying one, every interleaving up to 2 (thorough 3) preemptions, followed by the next periodic passes.",
    ref="DESIGN.md §6 C18",
    note="Trusted: virtual clock (time.Now in ratelimter.go/clientcache.go -> vtime; a silent instance's heartbeat is set back one hour), limiter rig, shim semantics at sync-operation granularity, sync.Map.Range order pinned to sorted keys under the scheduler."),
+ "C19": dict(cat="fault_enumeration", engine="enum+vsched",
+   technique="exhaustive enumeration of operation sequences x single API fault (kind x call index) x crash point on the real API-backed store with a reference model of acknowledged operations + stateless model checking of a flush racing delete/save",
+   text="Every sequence of up to 5 (thorough 6) operations over {Save c1=1, Save c1=2, Save c2, Save of a foreign-shard condition, Delete, DeleteUpstream, Flush, Stop} runs on the real objectStore in write-through and in periodic mode over a fake API pre-loaded with a condition of the own and one of the foreign shard; each sequence is run fault-free, with every (API call index x {NotFound, Conflict, AlreadyExists, ServerTimeout}) and with a crash before every API call. After every run a new store loads the shard: it must hold exactly the persisted conditions of the shard, every acknowledged write-through save, nothing acknowledged as deleted, and foreign objects must be untouched; Flush/Stop returning nil must have persisted every acknowledged condition. Engine A explores Flush racing Delete / DeleteUpstream / Save (every API call and statement a schedule point, up to 2/3 preemptions).",
+   ref="DESIGN.md §6 C19",
+   note="Trusted: the fake clientset's tracker as durable state with the two stated corrections towards real-API behaviour; state-consistent fault model; apimachinery's back-off sleeps run on the virtual clock; the store's timer loop is not started (flushes are triggered through Flush/Stop)."),
 }
 def manifest():
     checks = []
